@@ -26,7 +26,7 @@ func isCfgCall(v ssa.Value, name string) bool {
 }
 
 func checkC13(c *Ctx) {
-	c.Explanation = "Decides the retry structure of the file handler on every CFG path: (R1) classification — Handle returns only (a) at once for an error that is neither io.EOF nor an 'i/o timeout', (b) when the configured tolerance TimeoutOnEOF() is zero, (c) when the time since the first of a run of EOF/timeout results exceeds TimeoutOnEOF(); in every other case it loops to the next read; (R2) forward-once — every read that yields a byte is followed, before the next read or return, by exactly one send of that byte on the byte channel; the read buffer is a fresh one-byte slice, for which bufio.Reader.Read never returns data together with an error, so the error branch cannot hide a byte; (R3) the EOF clock is cleared on the success path and started only when it is clear; (R4) the byte channel is closed by a deferred close that covers every return, so the framer flushes the partial frame and closes its output (C02-R5, evaluated here too). R1 also requires Config.TimeoutOnEOF/WaitTimeOnEOF to be branch-free projections of one setting each, so a configured zero tolerance is zero."
+	c.Explanation = "Decides the retry structure of the file handler on every CFG path: (R1) classification — Handle returns only (a) at once for an error that is neither io.EOF nor an 'i/o timeout', (b) when the configured tolerance TimeoutOnEOF() is zero, (c) when the time since the first of a run of EOF/timeout results exceeds TimeoutOnEOF(); in every other case it loops to the next read; (R2) forward-once — every read that yields a byte is followed, before the next read or return, by exactly one send of that byte on the byte channel; the read buffer is a fresh one-byte slice, for which bufio.Reader.Read never returns data together with an error, so the error branch cannot hide a byte; (R3) the EOF clock is cleared on the success path and started only when it is clear; (R4) the byte channel is closed by a deferred close that covers every return, so the framer flushes the partial frame and closes its output (C02-R5, evaluated here too). R1 also requires Config.TimeoutOnEOF/WaitTimeOnEOF to be branch-free projections of one setting each, so a configured zero tolerance is zero. R4 also requires that the framer goroutine, which alone closes the output channel, is started once and unconditionally (C09 single-sender and confinement rules)."
 	c.NotDecided = "real time (sleep durations, clock monotonicity); behaviour of readers other than *bufio.Reader (the parameter's static type)."
 	c.Assumptions = append(c.Assumptions, "bufio.Reader.Read with a destination shorter than its internal buffer (>=16 bytes) returns n>0 only with a nil error (copy from the buffer), and (0, err) otherwise")
 	pl := resolvePipeline(c, "C13-anchor")
@@ -73,6 +73,10 @@ func checkC13(c *Ctx) {
 		f.ruleStreamForward("C13-R4")
 	}
 	ruleTerminationChain(c, pl, "C13-R4")
+	// the framer goroutine, which alone closes the output channel, is started once and
+	// unconditionally before the read loop (C09-R2/R6 rules)
+	ruleSingleSender(c, pl, "C13-R4")
+	ruleConfinement(c, pl, "C13-R4")
 	c.MinInstances("C13-R1", 6)
 	c.MinInstances("C13-R2", 6)
 	c.MinInstances("C13-R3", 4)
